@@ -10,9 +10,12 @@
 //     [2] form  0 digest()  1 digest_hex()  2 digest_hex_uc()  3 finalize(void*) into an exact-size heap buffer
 //               4 xxx_hex(const void*, u32)  5 xxx_hex(std::string -> string_view)
 //               6 xxx_hex_uc(const void*, u32)  7 xxx_hex_uc(std::string -> string_view)
+//               8 xxx_hex(tlx::string_view(ptr,len))  9 xxx_hex_uc(tlx::string_view(ptr,len)) on an exact-size block
+//     [3] ctor  3 ctor(std::string) (explicit constructor through the implicit StringView conversion), see below
 //     [3] ctor  0 default ctor, 1 ctor(const void*, u32) fed with chunk 0, 2 ctor(tlx::string_view) fed with chunk 0
 //     [4..7] nchunks, then nchunks x { u32 len, u8 style }  style 0 process(const void*, u32),
-//               1 process(tlx::string_view(ptr,len)), 2 process(std::string) (implicit StringView conversion)
+//               1 process(tlx::string_view(ptr,len)), 2 process(std::string) (implicit StringView conversion),
+//               3 process(std::string_view(ptr,len)) (implicit StringView conversion)
 //     rest: message bytes (sum of chunk lengths for forms 0..3; the whole message for forms 4..7)
 //     Every chunk is copied into its own exact-size malloc block, so that any read outside the chunk hits an
 //     ASan red zone. A fresh digest object is used per case.
@@ -24,6 +27,24 @@
 //     init_by_array over the 32-bit words of the seed; implemented below, checked by the Python side at start-up
 //     through the 'P' request). Chunks are cut from it and fed exactly like in a 'D' case.
 //
+//   payload[0] == 'H'  (digest case on a HUGE message, 2^29 bytes and more: nothing is copied, every chunk is fed straight
+//                       from ONE shared buffer that is kept between requests)
+//     [1] algo, [2] form, [3] ctor, [4..7] nchunks, chunk table -- as for 'D', but style 0 process(const void*, u32) or
+//     1 process(tlx::string_view(ptr,len)) only (style 2 would copy), forms 5 / 7 call the helper with a
+//     tlx::string_view(ptr,len) -- then u64 seed, u64 length (<= 2^32 - 1), u8 mem.
+//     mem 0: message = tile_bytes(seed, length): byte i is gen_bytes(seed, 1048573)[i mod 1048573] (the period is a prime,
+//            so no block boundary of any digest ever repeats at the same tile offset); exact-size malloc block (ASan red
+//            zone right behind the message).
+//     mem 1: message = `length` zero bytes in a never-written anonymous read-only mapping (all pages are the kernel's
+//            shared zero page: 4 GiB of address space, no resident memory).
+//   payload[0] == 'T'  (probe) u64 seed, u64 length (<= 8 MiB), u8 mem -> response = the huge-message bytes
+//   payload[0] == 'U'  (SipHash on the huge message) u64 seed, u64 length, u8 mem, 16 key bytes -> 24 bytes: plain, sse2
+//                       (plain again without SSE2) and dispatch on the shared buffer
+//
+//   payload[0] == 'M'  (several 'H' / 'U' requests on the SAME huge message, executed by up to `threads` threads of this
+//                       one process: one buffer, wall time of the slowest digest instead of the sum)
+//     [1..4] u32 count, [5] u8 threads, then count x { u32 len, len payload bytes }; response = count x { u32 len, bytes }
+//
 //   payload[0] == 'P'  (generator probe) u64 seed, u32 length -> response = gen_bytes(seed, length)
 //
 //   payload[0] == 'S'  (SipHash case)
@@ -31,6 +52,9 @@
 //                 3 siphash(const uint8_t*, len)  4 siphash(const char*, len)  5 siphash(tlx::string_view)
 //                 6 plain, sse2 and dispatch on the same buffers (response 24 bytes)
 //                 7 siphash(std::string) (opt-in, see C14_STRING_OVERLOAD in C14_check.py)
+//                 8 template siphash(const Type&) on trivially copyable objects whose sizeof is the message length:
+//                   integers (1, 2, 4, 8 bytes), a struct holding a byte array, a raw byte array (1 .. 64 bytes, see
+//                   POD_SIZES in C14_check.py); response = 8 bytes per object type tried (2 or 3 values)
 //     [2] message offset 0..15   [3] key offset 0..15   [4..19] key   rest: message
 //     key and message are placed at the END of exact-size malloc blocks, `offset` bytes after a 16-aligned start.
 //     response = 8 bytes (u64 LE) per computed value; empty when the variant is not compiled in (no SSE2).
@@ -44,11 +68,18 @@
 #include <tlx/digest/sha512.hpp>
 #include <tlx/siphash.hpp>
 
+#include <sys/mman.h>
+
+#include <algorithm>
+#include <atomic>
 #include <cstdint>
 #include <cstdio>
 #include <cstdlib>
 #include <cstring>
 #include <string>
+#include <string_view>
+#include <thread>
+#include <utility>
 #include <vector>
 
 namespace {
@@ -158,6 +189,10 @@ void feed(Digest& d, const Chunk& c) {
         Exact e(c.src, c.len);
         d.process(tlx::string_view(reinterpret_cast<const char*>(e.p), c.len));
     }
+    else if (c.style == 3) {
+        Exact e(c.src, c.len);
+        d.process(std::string_view(reinterpret_cast<const char*>(e.p), c.len));
+    }
     else {
         std::string s(reinterpret_cast<const char*>(c.src), c.len);
         d.process(s);
@@ -195,6 +230,12 @@ std::string run_object(int form, int ctor, const std::vector<Chunk>& chunks) {
         for (size_t i = 1; i < chunks.size(); ++i) feed(d, chunks[i]);
         return finish(d, form);
     }
+    if (ctor == 3) {
+        const std::string s0(reinterpret_cast<const char*>(c0.src), c0.len);
+        Digest d(s0);
+        for (size_t i = 1; i < chunks.size(); ++i) feed(d, chunks[i]);
+        return finish(d, form);
+    }
     Digest d(tlx::string_view(reinterpret_cast<const char*>(e.p), c0.len));
     for (size_t i = 1; i < chunks.size(); ++i) feed(d, chunks[i]);
     return finish(d, form);
@@ -213,6 +254,20 @@ std::string run_helper(int algo, int form, const std::uint8_t* msg, std::uint32_
         Exact e(msg, len);
         return (form == 4 ? lc_p : uc_p)[algo](static_cast<const void*>(e.p), len);
     }
+    if (form >= 8) { // a string_view that is NOT followed by a NUL (or anything else that is readable)
+        Exact e(msg, len);
+        tlx::string_view sv(reinterpret_cast<const char*>(e.p), len);
+        switch (algo * 2 + (form == 9)) {
+        case 0: return tlx::md5_hex(sv);
+        case 1: return tlx::md5_hex_uc(sv);
+        case 2: return tlx::sha1_hex(sv);
+        case 3: return tlx::sha1_hex_uc(sv);
+        case 4: return tlx::sha256_hex(sv);
+        case 5: return tlx::sha256_hex_uc(sv);
+        case 6: return tlx::sha512_hex(sv);
+        default: return tlx::sha512_hex_uc(sv);
+        }
+    }
     std::string s(reinterpret_cast<const char*>(msg), len);
     // std::string -> tlx::string_view implicit conversion, as a user would call sha256_hex(str)
     switch (algo * 2 + (form == 7)) {
@@ -230,7 +285,7 @@ std::string run_helper(int algo, int form, const std::uint8_t* msg, std::uint32_
 std::string do_digest(const std::uint8_t* p, std::uint32_t n, bool generated) {
     if (n < 8) bad("short digest header");
     int algo = p[1], form = p[2], ctor = p[3];
-    if (algo > 3 || form > 7 || ctor > 2) bad("digest selector");
+    if (algo > 3 || form > 9 || ctor > 3) bad("digest selector");
     std::uint32_t nch = rd32(p + 4);
     if (std::uint64_t(nch) * 5 + 8 > n) bad("chunk table");
     const std::uint8_t* tab = p + 8;
@@ -250,7 +305,7 @@ std::string do_digest(const std::uint8_t* p, std::uint32_t n, bool generated) {
     for (std::uint32_t i = 0; i < nch; ++i) {
         std::uint32_t len = rd32(tab + 5 * std::size_t(i));
         std::uint8_t style = tab[5 * std::size_t(i) + 4];
-        if (style > 2) bad("chunk style");
+        if (style > 3) bad("chunk style");
         if (pos + len > mlen) bad("chunk lengths exceed message");
         chunks.push_back(Chunk{len, style, msg + pos});
         pos += len;
@@ -277,6 +332,23 @@ struct Placed {
     ~Placed() { std::free(base); }
 };
 
+template <std::size_t N>
+struct PodBytes {
+    std::uint8_t b[N];
+};
+template <typename T>
+std::uint64_t sip_object(const std::uint8_t* m) {
+    T v;
+    std::memcpy(&v, m, sizeof(v));
+    return tlx::siphash(v); // template <typename Type> siphash(const Type&)
+}
+template <std::size_t N>
+std::uint64_t sip_array(const std::uint8_t* m) {
+    std::uint8_t a[N];
+    std::memcpy(a, m, N);
+    return tlx::siphash(a); // Type = std::uint8_t[N]
+}
+
 void put64(std::string& out, std::uint64_t v) {
     for (int i = 0; i < 8; ++i) out.push_back(static_cast<char>((v >> (8 * i)) & 0xff));
 }
@@ -285,7 +357,7 @@ std::string do_siphash(const std::uint8_t* p, std::uint32_t n) {
     if (n < 20) bad("short siphash header");
     int variant = p[1];
     std::size_t moff = p[2], koff = p[3];
-    if (variant > 7 || moff > 15 || koff > 15) bad("siphash selector");
+    if (variant > 8 || moff > 15 || koff > 15) bad("siphash selector");
     std::size_t len = n - 20;
     Placed key(p + 4, 16, koff);
     Placed msg(p + 20, len, moff);
@@ -306,6 +378,18 @@ std::string do_siphash(const std::uint8_t* p, std::uint32_t n) {
         put64(out, tlx::siphash(str));
         break;
     }
+    case 8:
+        switch (len) {
+#define POD(N) case N: put64(out, sip_object<PodBytes<N>>(msg.p)), put64(out, sip_array<N>(msg.p)); break;
+        case 1: put64(out, sip_object<std::uint8_t>(msg.p)), put64(out, sip_object<char>(msg.p)), put64(out, sip_object<PodBytes<1>>(msg.p)); break;
+        case 2: put64(out, sip_object<std::uint16_t>(msg.p)), put64(out, sip_object<std::int16_t>(msg.p)), put64(out, sip_array<2>(msg.p)); break;
+        case 4: put64(out, sip_object<std::uint32_t>(msg.p)), put64(out, sip_object<int>(msg.p)), put64(out, sip_object<PodBytes<4>>(msg.p)); break;
+        case 8: put64(out, sip_object<std::uint64_t>(msg.p)), put64(out, sip_object<std::int64_t>(msg.p)), put64(out, sip_array<8>(msg.p)); break;
+        POD(3) POD(5) POD(7) POD(9) POD(12) POD(15) POD(16) POD(17) POD(24) POD(31) POD(32) POD(33) POD(64)
+#undef POD
+        default: bad("template siphash size");
+        }
+        break;
     default:
         put64(out, tlx::siphash_plain(key.p, msg.p, len));
 #if defined(__SSE2__)
@@ -315,6 +399,200 @@ std::string do_siphash(const std::uint8_t* p, std::uint32_t n) {
 #endif
         put64(out, tlx::siphash(key.p, msg.p, len));
         break;
+    }
+    return out;
+}
+
+// ---- huge messages -----------------------------------------------------------------------------------------------------
+
+const std::size_t kTile = 1048573; // prime
+
+struct Huge {
+    std::uint8_t* p = nullptr;
+    std::uint64_t seed = 0, len = 0;
+    int mem = -1;
+    void release() {
+        if (!p) return;
+        if (mem == 1) munmap(p, len ? len : 1);
+        else std::free(p);
+        p = nullptr, mem = -1;
+    }
+    const std::uint8_t* get(std::uint64_t s, std::uint64_t n, int m) {
+        if (p && seed == s && len == n && mem == m) return p;
+        release();
+        if (m == 1) {
+            void* a = mmap(nullptr, n ? n : 1, PROT_READ, MAP_PRIVATE | MAP_ANONYMOUS | MAP_NORESERVE, -1, 0);
+            if (a == MAP_FAILED) { std::fprintf(stderr, "C14_runner: cannot map %llu bytes\n", (unsigned long long)n); std::exit(4); }
+            p = static_cast<std::uint8_t*>(a);
+        } else {
+            p = static_cast<std::uint8_t*>(std::malloc(n ? n : 1));
+            if (!p) { std::fprintf(stderr, "C14_runner: cannot allocate %llu bytes\n", (unsigned long long)n); std::exit(4); }
+            std::vector<std::uint8_t> tile = gen_bytes(s, std::uint32_t(kTile)); // copy: gen_bytes keeps one message
+            for (std::uint64_t off = 0; off < n; off += kTile) std::memcpy(p + off, tile.data(), std::size_t(std::min<std::uint64_t>(kTile, n - off)));
+        }
+        seed = s, len = n, mem = m;
+        return p;
+    }
+};
+Huge g_huge;
+
+template <typename Digest>
+std::string run_object_nocopy(int form, int ctor, const std::vector<Chunk>& chunks) {
+    auto feed_nc = [](Digest& d, const Chunk& c) {
+        if (c.style == 0) d.process(static_cast<const void*>(c.src), c.len);
+        else d.process(tlx::string_view(reinterpret_cast<const char*>(c.src), c.len));
+    };
+    if (ctor == 0 || chunks.empty()) {
+        Digest d;
+        for (const Chunk& c : chunks) feed_nc(d, c);
+        return finish(d, form);
+    }
+    const Chunk& c0 = chunks[0];
+    if (ctor == 1) {
+        Digest d(static_cast<const void*>(c0.src), c0.len);
+        for (size_t i = 1; i < chunks.size(); ++i) feed_nc(d, chunks[i]);
+        return finish(d, form);
+    }
+    Digest d(tlx::string_view(reinterpret_cast<const char*>(c0.src), c0.len));
+    for (size_t i = 1; i < chunks.size(); ++i) feed_nc(d, chunks[i]);
+    return finish(d, form);
+}
+
+std::string run_helper_nocopy(int algo, int form, const std::uint8_t* msg, std::uint32_t len) {
+    const void* vp = msg;
+    tlx::string_view sv(reinterpret_cast<const char*>(msg), len);
+    switch (algo * 4 + (form - 4)) {
+    case 0: return tlx::md5_hex(vp, len);
+    case 1: return tlx::md5_hex(sv);
+    case 2: return tlx::md5_hex_uc(vp, len);
+    case 3: return tlx::md5_hex_uc(sv);
+    case 4: return tlx::sha1_hex(vp, len);
+    case 5: return tlx::sha1_hex(sv);
+    case 6: return tlx::sha1_hex_uc(vp, len);
+    case 7: return tlx::sha1_hex_uc(sv);
+    case 8: return tlx::sha256_hex(vp, len);
+    case 9: return tlx::sha256_hex(sv);
+    case 10: return tlx::sha256_hex_uc(vp, len);
+    case 11: return tlx::sha256_hex_uc(sv);
+    case 12: return tlx::sha512_hex(vp, len);
+    case 13: return tlx::sha512_hex(sv);
+    case 14: return tlx::sha512_hex_uc(vp, len);
+    default: return tlx::sha512_hex_uc(sv);
+    }
+}
+
+std::string do_huge(const std::uint8_t* p, std::uint32_t n) {
+    if (n < 8) bad("short huge header");
+    int algo = p[1], form = p[2], ctor = p[3];
+    if (algo > 3 || form > 7 || ctor > 2) bad("huge selector");
+    std::uint32_t nch = rd32(p + 4);
+    if (std::uint64_t(nch) * 5 + 8 + 17 != n) bad("huge chunk table / trailer");
+    const std::uint8_t* tab = p + 8;
+    const std::uint8_t* tr = tab + std::size_t(nch) * 5;
+    std::uint64_t seed = rd64(tr), len = rd64(tr + 8);
+    int mem = tr[16];
+    if (len > 0xFFFFFFFFull || mem > 1) bad("huge length / mem");
+    const std::uint8_t* msg = g_huge.get(seed, len, mem);
+    if (form >= 4) return run_helper_nocopy(algo, form, msg, std::uint32_t(len));
+    std::vector<Chunk> chunks;
+    std::uint64_t pos = 0;
+    for (std::uint32_t i = 0; i < nch; ++i) {
+        std::uint32_t cl = rd32(tab + 5 * std::size_t(i));
+        std::uint8_t style = tab[5 * std::size_t(i) + 4];
+        if (style > 1) bad("huge chunk style");
+        if (pos + cl > len) bad("huge chunk lengths exceed message");
+        chunks.push_back(Chunk{cl, style, msg + pos});
+        pos += cl;
+    }
+    if (pos != len) bad("huge chunk lengths do not cover message");
+    switch (algo) {
+    case 0: return run_object_nocopy<tlx::MD5>(form, ctor, chunks);
+    case 1: return run_object_nocopy<tlx::SHA1>(form, ctor, chunks);
+    case 2: return run_object_nocopy<tlx::SHA256>(form, ctor, chunks);
+    default: return run_object_nocopy<tlx::SHA512>(form, ctor, chunks);
+    }
+}
+
+std::string do_huge_probe(const std::uint8_t* p, std::uint32_t n) {
+    if (n != 18) bad("huge probe");
+    std::uint64_t seed = rd64(p + 1), len = rd64(p + 9);
+    if (len > (8u << 20) || p[17] > 1) bad("huge probe length");
+    const std::uint8_t* msg = g_huge.get(seed, len, p[17]);
+    return std::string(reinterpret_cast<const char*>(msg), std::size_t(len));
+}
+
+std::string do_huge_sip(const std::uint8_t* p, std::uint32_t n) {
+    if (n != 34) bad("huge siphash");
+    std::uint64_t seed = rd64(p + 1), len = rd64(p + 9);
+    if (p[17] > 1 || len > (std::uint64_t(1) << 34)) bad("huge siphash mem / length");
+    const std::uint8_t* msg = g_huge.get(seed, len, p[17]);
+    Placed key(p + 18, 16, 0);
+    std::string out;
+    put64(out, tlx::siphash_plain(key.p, msg, std::size_t(len)));
+#if defined(__SSE2__)
+    put64(out, tlx::siphash_sse2(key.p, msg, std::size_t(len)));
+#else
+    put64(out, tlx::siphash_plain(key.p, msg, std::size_t(len)));
+#endif
+    put64(out, tlx::siphash(key.p, msg, std::size_t(len)));
+    return out;
+}
+
+//! (seed, len, mem) of an 'H' or 'U' payload
+void huge_key(const std::uint8_t* p, std::uint32_t n, std::uint64_t& seed, std::uint64_t& len, int& mem) {
+    if (n >= 25 && p[0] == 'H') {
+        const std::uint8_t* tr = p + n - 17;
+        seed = rd64(tr), len = rd64(tr + 8), mem = tr[16];
+    } else if (n == 34 && p[0] == 'U') {
+        seed = rd64(p + 1), len = rd64(p + 9), mem = p[17];
+    } else bad("multi: sub-request kind");
+}
+
+std::string do_multi(const std::uint8_t* p, std::uint32_t n) {
+    if (n < 6) bad("short multi header");
+    std::uint32_t count = rd32(p + 1);
+    unsigned threads = p[5];
+    if (count == 0 || count > 64 || threads == 0 || threads > 8) bad("multi count / threads");
+    std::vector<std::pair<const std::uint8_t*, std::uint32_t>> subs;
+    std::size_t pos = 6;
+    for (std::uint32_t i = 0; i < count; ++i) {
+        if (pos + 4 > n) bad("multi table");
+        std::uint32_t l = rd32(p + pos);
+        pos += 4;
+        if (l == 0 || pos + l > n) bad("multi sub-request length");
+        subs.emplace_back(p + pos, l);
+        pos += l;
+    }
+    if (pos != n) bad("multi trailing bytes");
+    std::uint64_t seed = 0, len = 0;
+    int mem = 0;
+    huge_key(subs[0].first, subs[0].second, seed, len, mem);
+    for (auto& sr : subs) {
+        std::uint64_t s2, l2;
+        int m2;
+        huge_key(sr.first, sr.second, s2, l2, m2);
+        if (s2 != seed || l2 != len || m2 != mem) bad("multi: sub-requests on different messages");
+    }
+    if (mem > 1) bad("multi mem");
+    g_huge.get(seed, len, mem); // built once, before the threads start; they only read it
+    std::vector<std::string> outs(count);
+    std::atomic<std::uint32_t> next(0);
+    auto work = [&]() {
+        for (;;) {
+            std::uint32_t i = next.fetch_add(1);
+            if (i >= count) return;
+            outs[i] = subs[i].first[0] == 'H' ? do_huge(subs[i].first, subs[i].second) : do_huge_sip(subs[i].first, subs[i].second);
+        }
+    };
+    std::vector<std::thread> pool;
+    for (unsigned t = 1; t < std::min<unsigned>(threads, count); ++t) pool.emplace_back(work);
+    work();
+    for (auto& t : pool) t.join();
+    std::string out;
+    for (auto& o : outs) {
+        std::uint32_t m = static_cast<std::uint32_t>(o.size());
+        for (int b = 0; b < 4; ++b) out.push_back(static_cast<char>((m >> (8 * b)) & 0xff));
+        out += o;
     }
     return out;
 }
@@ -350,6 +628,10 @@ int main() {
             break;
         }
         case 'S': out = do_siphash(buf.data(), n); break;
+        case 'H': out = do_huge(buf.data(), n); break;
+        case 'T': out = do_huge_probe(buf.data(), n); break;
+        case 'U': out = do_huge_sip(buf.data(), n); break;
+        case 'M': out = do_multi(buf.data(), n); break;
         default: bad("kind");
         }
         std::uint32_t m = static_cast<std::uint32_t>(out.size());
